@@ -6,7 +6,7 @@ p = '/repo/src/verif/mod.rs'
 s = open(p).read()
 s = re.sub(r"<<<<<<< [^\n]*\n(.*?)=======\n(.*?)>>>>>>> [^\n]*\n", lambda m: m.group(1) + m.group(2), s, flags=re.S)
 m = re.search(r"pub fn new_box\(area: &str\).*?\n\}\n", s, flags=re.S)
-names = sorted(set(re.findall(r'^\s*"(c\d+\w*)" =>', m.group(0), flags=re.M)))
+names = sorted(set(re.findall(r'^\s*"(\w+)" =>', m.group(0), flags=re.M)))
 a = re.search(r"pub fn areas\(\) -> Vec<&'static str> \{\n(.*?)\n\}\n", s, flags=re.S)
 body = "    vec![\n" + "".join(f'        "{n}",\n' for n in names) + "    ]"
 s = s[:a.start(1)] + body + s[a.end(1):]
